@@ -113,8 +113,8 @@ package abi
 //@ func TDXMetadataDescriptorFromBytes
 //@   assigns nothing
 //@   sweep[C08,C18]
-//@   ensures[C18] len(data) < 16 <==> err != nil
-//@   ensures[C18] err == nil ==> result0 != nil && fresh(result0) && result0.Signature == le32(data, 0) && result0.Length == le32(data, 4) && result0.Version == le32(data, 8) && result0.SectionCount == le32(data, 12)
+//@   ensures[C18,C05] len(data) < 16 <==> err != nil
+//@   ensures[C18,C05] err == nil ==> result0 != nil && fresh(result0) && result0.Signature == le32(data, 0) && result0.Length == le32(data, 4) && result0.Version == le32(data, 8) && result0.SectionCount == le32(data, 12)
 
 //@ func (*TDXMetadataDescriptor).Put
 //@   requires h != nil
@@ -129,8 +129,8 @@ package abi
 //@ func TDXMetadataSectionFromBytes
 //@   assigns nothing
 //@   sweep[C08,C18]
-//@   ensures[C18] len(data) < 32 <==> err != nil
-//@   ensures[C18] err == nil ==> result0 != nil && fresh(result0) && result0.DataOffset == le32(data, 0) && result0.DataSize == le32(data, 4) && result0.MemoryBase == le64(data, 8) && result0.MemorySize == le64(data, 16) && result0.SectionType == le32(data, 24) && result0.Attributes == le32(data, 28)
+//@   ensures[C18,C05] len(data) < 32 <==> err != nil
+//@   ensures[C18,C05] err == nil ==> result0 != nil && fresh(result0) && result0.DataOffset == le32(data, 0) && result0.DataSize == le32(data, 4) && result0.MemoryBase == le64(data, 8) && result0.MemorySize == le64(data, 16) && result0.SectionType == le32(data, 24) && result0.Attributes == le32(data, 28)
 
 //@ func (*TDXMetadataSection).Put
 //@   requires s != nil
@@ -169,12 +169,12 @@ package abi
 //@   sweep[C08,C18]
 //@   alloc 64 * len(data) + 1024
 //@   ghostparam a Int
-//@   ensures[C18] len(data) < 16 ==> err != nil
-//@   ensures[C18] err == nil <==> len(data) >= 16 && 32 * le32(data, 12) <= len(data) - 16
-//@   ensures[C18] err == nil ==> result0 != nil && fresh(result0) && result0.Header != nil && fresh(result0.Header) && len(result0.Sections) == le32(data, 12) && (ref(result0.Sections) == 0 || fresh(result0.Sections))
-//@   ensures[C18] err == nil ==> result0.Header.Signature == le32(data, 0) && result0.Header.Length == le32(data, 4) && result0.Header.Version == le32(data, 8) && result0.Header.SectionCount == le32(data, 12)
-//@   ensures[C18] err == nil && 0 <= a && a < len(result0.Sections) ==> result0.Sections[a] != nil && fresh(result0.Sections[a])
-//@   ensures[C18] err == nil && 0 <= a && a < len(result0.Sections) ==> result0.Sections[a].DataOffset == le32(data, 16+32*a) && result0.Sections[a].DataSize == le32(data, 20+32*a) && result0.Sections[a].MemoryBase == le64(data, 24+32*a) && result0.Sections[a].MemorySize == le64(data, 32+32*a) && result0.Sections[a].SectionType == le32(data, 40+32*a) && result0.Sections[a].Attributes == le32(data, 44+32*a)
+//@   ensures[C18,C05] len(data) < 16 ==> err != nil
+//@   ensures[C18,C05] err == nil <==> len(data) >= 16 && 32 * le32(data, 12) <= len(data) - 16
+//@   ensures[C18,C05] err == nil ==> result0 != nil && fresh(result0) && result0.Header != nil && fresh(result0.Header) && len(result0.Sections) == le32(data, 12) && (ref(result0.Sections) == 0 || fresh(result0.Sections))
+//@   ensures[C18,C05] err == nil ==> result0.Header.Signature == le32(data, 0) && result0.Header.Length == le32(data, 4) && result0.Header.Version == le32(data, 8) && result0.Header.SectionCount == le32(data, 12)
+//@   ensures[C18,C05] err == nil && 0 <= a && a < len(result0.Sections) ==> result0.Sections[a] != nil && fresh(result0.Sections[a])
+//@   ensures[C18,C05] err == nil && 0 <= a && a < len(result0.Sections) ==> result0.Sections[a].DataOffset == le32(data, 16+32*a) && result0.Sections[a].DataSize == le32(data, 20+32*a) && result0.Sections[a].MemoryBase == le64(data, 24+32*a) && result0.Sections[a].MemorySize == le64(data, 32+32*a) && result0.Sections[a].SectionType == le32(data, 40+32*a) && result0.Sections[a].Attributes == le32(data, 44+32*a)
 //@   loop 1 invariant 0 <= i && i <= hdr.SectionCount && len(sections) == i && (ref(sections) == 0 || fresh(sections)) && alloc <= 64 * i + 256 && unchanged(content(data))
 //@   loop 1 invariant rdLeft[buf] == len(data) - 16 - 32 * i && len(brSrc[buf]) == rdLeft[buf] && ref(brSrc[buf]) == ref(data) && off(brSrc[buf]) == off(data) + 16 + 32 * i
 //@   loop 1 invariant 0 <= a && a < i ==> sections[a] != nil && fresh(sections[a])
@@ -216,34 +216,34 @@ package abi
 //@   assigns nothing
 //@   modifies wrLen, wrLog
 //@   sweep[C08,C18] nil index slice div typeassert panic makeslice nilmap
-//@   ensures[C18] err == nil ==> result0 == 8 && wrLen[ref(w)] == old(wrLen)[ref(w)] + 8 && hobHdrAt(wrLog[ref(w)], old(wrLen)[ref(w)], h.HobType, h.HobLength)
-//@   ensures[C18] err == nil ==> forall(j, j < old(wrLen)[ref(w)] ==> wrLog[ref(w)][j] == old(wrLog)[ref(w)][j])
-//@   ensures[C18] forall(r, Int, r != ref(w) ==> wrLen[r] == old(wrLen)[r] && wrLog[r] == old(wrLog)[r])
+//@   ensures[C18,C05] err == nil ==> result0 == 8 && wrLen[ref(w)] == old(wrLen)[ref(w)] + 8 && hobHdrAt(wrLog[ref(w)], old(wrLen)[ref(w)], h.HobType, h.HobLength)
+//@   ensures[C18,C05] err == nil ==> forall(j, j < old(wrLen)[ref(w)] ==> wrLog[ref(w)][j] == old(wrLog)[ref(w)][j])
+//@   ensures[C18,C05] forall(r, Int, r != ref(w) ==> wrLen[r] == old(wrLen)[r] && wrLog[r] == old(wrLog)[r])
 
 // PHIT HOB: header, u32 version, u32 boot mode, five u64 addresses; 56 bytes.
 //@ func EFIHOBHandoffInfoTable.WriteTo
 //@   assigns nothing
 //@   modifies wrLen, wrLog
 //@   sweep[C08,C18] nil index slice div typeassert panic makeslice nilmap
-//@   ensures[C18] err == nil ==> result0 == 56 && wrLen[ref(w)] == old(wrLen)[ref(w)] + 56 && hobHdrAt(wrLog[ref(w)], old(wrLen)[ref(w)], t.Header.HobType, t.Header.HobLength)
-//@   ensures[C18] err == nil ==> lg32(wrLog[ref(w)], old(wrLen)[ref(w)] + 8) == t.Version && lg32(wrLog[ref(w)], old(wrLen)[ref(w)] + 12) == t.BootMode
-//@   ensures[C18] err == nil ==> lg64(wrLog[ref(w)], old(wrLen)[ref(w)] + 16) == t.EfiMemoryTop && lg64(wrLog[ref(w)], old(wrLen)[ref(w)] + 24) == t.EfiMemoryBottom && lg64(wrLog[ref(w)], old(wrLen)[ref(w)] + 32) == t.EfiFreeMemoryTop
-//@   ensures[C18] err == nil ==> lg64(wrLog[ref(w)], old(wrLen)[ref(w)] + 40) == t.EfiFreeMemoryBottom && lg64(wrLog[ref(w)], old(wrLen)[ref(w)] + 48) == t.EfiEndOfHobList
-//@   ensures[C18] err == nil ==> forall(j, j < old(wrLen)[ref(w)] ==> wrLog[ref(w)][j] == old(wrLog)[ref(w)][j])
-//@   ensures[C18] forall(r, Int, r != ref(w) ==> wrLen[r] == old(wrLen)[r] && wrLog[r] == old(wrLog)[r])
+//@   ensures[C18,C05] err == nil ==> result0 == 56 && wrLen[ref(w)] == old(wrLen)[ref(w)] + 56 && hobHdrAt(wrLog[ref(w)], old(wrLen)[ref(w)], t.Header.HobType, t.Header.HobLength)
+//@   ensures[C18,C05] err == nil ==> lg32(wrLog[ref(w)], old(wrLen)[ref(w)] + 8) == t.Version && lg32(wrLog[ref(w)], old(wrLen)[ref(w)] + 12) == t.BootMode
+//@   ensures[C18,C05] err == nil ==> lg64(wrLog[ref(w)], old(wrLen)[ref(w)] + 16) == t.EfiMemoryTop && lg64(wrLog[ref(w)], old(wrLen)[ref(w)] + 24) == t.EfiMemoryBottom && lg64(wrLog[ref(w)], old(wrLen)[ref(w)] + 32) == t.EfiFreeMemoryTop
+//@   ensures[C18,C05] err == nil ==> lg64(wrLog[ref(w)], old(wrLen)[ref(w)] + 40) == t.EfiFreeMemoryBottom && lg64(wrLog[ref(w)], old(wrLen)[ref(w)] + 48) == t.EfiEndOfHobList
+//@   ensures[C18,C05] err == nil ==> forall(j, j < old(wrLen)[ref(w)] ==> wrLog[ref(w)][j] == old(wrLog)[ref(w)][j])
+//@   ensures[C18,C05] forall(r, Int, r != ref(w) ==> wrLen[r] == old(wrLen)[r] && wrLog[r] == old(wrLog)[r])
 
 // Resource descriptor HOB: header, owner EFI GUID, u32 type, u32 attributes, u64 start, u64 length; 48 bytes.
 //@ func EFIHOBResourceDescriptor.WriteTo
 //@   assigns nothing
 //@   modifies wrLen, wrLog
 //@   sweep[C08,C18] nil index slice div typeassert panic makeslice nilmap
-//@   ensures[C18] err == nil ==> result0 == 48 && wrLen[ref(w)] == old(wrLen)[ref(w)] + 48 && hobHdrAt(wrLog[ref(w)], old(wrLen)[ref(w)], d.Header.HobType, d.Header.HobLength)
-//@   ensures[C18] err == nil ==> lg32(wrLog[ref(w)], old(wrLen)[ref(w)] + 8) == d.Owner.Data1 && lg16(wrLog[ref(w)], old(wrLen)[ref(w)] + 12) == d.Owner.Data2 && lg16(wrLog[ref(w)], old(wrLen)[ref(w)] + 14) == d.Owner.Data3
-//@   ensures[C18] err == nil ==> forall(i, 0 <= i && i < 8 ==> wrLog[ref(w)][old(wrLen)[ref(w)] + 16 + i] == d.Owner.Data4[i])
-//@   ensures[C18] err == nil ==> lg32(wrLog[ref(w)], old(wrLen)[ref(w)] + 24) == d.ResourceType && lg32(wrLog[ref(w)], old(wrLen)[ref(w)] + 28) == d.ResourceAttribute
-//@   ensures[C18] err == nil ==> lg64(wrLog[ref(w)], old(wrLen)[ref(w)] + 32) == d.PhysicalStart && lg64(wrLog[ref(w)], old(wrLen)[ref(w)] + 40) == d.ResourceLength
-//@   ensures[C18] err == nil ==> forall(j, j < old(wrLen)[ref(w)] ==> wrLog[ref(w)][j] == old(wrLog)[ref(w)][j])
-//@   ensures[C18] forall(r, Int, r != ref(w) ==> wrLen[r] == old(wrLen)[r] && wrLog[r] == old(wrLog)[r])
+//@   ensures[C18,C05] err == nil ==> result0 == 48 && wrLen[ref(w)] == old(wrLen)[ref(w)] + 48 && hobHdrAt(wrLog[ref(w)], old(wrLen)[ref(w)], d.Header.HobType, d.Header.HobLength)
+//@   ensures[C18,C05] err == nil ==> lg32(wrLog[ref(w)], old(wrLen)[ref(w)] + 8) == d.Owner.Data1 && lg16(wrLog[ref(w)], old(wrLen)[ref(w)] + 12) == d.Owner.Data2 && lg16(wrLog[ref(w)], old(wrLen)[ref(w)] + 14) == d.Owner.Data3
+//@   ensures[C18,C05] err == nil ==> forall(i, 0 <= i && i < 8 ==> wrLog[ref(w)][old(wrLen)[ref(w)] + 16 + i] == d.Owner.Data4[i])
+//@   ensures[C18,C05] err == nil ==> lg32(wrLog[ref(w)], old(wrLen)[ref(w)] + 24) == d.ResourceType && lg32(wrLog[ref(w)], old(wrLen)[ref(w)] + 28) == d.ResourceAttribute
+//@   ensures[C18,C05] err == nil ==> lg64(wrLog[ref(w)], old(wrLen)[ref(w)] + 32) == d.PhysicalStart && lg64(wrLog[ref(w)], old(wrLen)[ref(w)] + 40) == d.ResourceLength
+//@   ensures[C18,C05] err == nil ==> forall(j, j < old(wrLen)[ref(w)] ==> wrLog[ref(w)][j] == old(wrLog)[ref(w)][j])
+//@   ensures[C18,C05] forall(r, Int, r != ref(w) ==> wrLen[r] == old(wrLen)[r] && wrLog[r] == old(wrLog)[r])
 
 //@ func sizedWrite
 //@   assigns nothing
@@ -259,11 +259,11 @@ package abi
 //@   assigns nothing
 //@   modifies wrLen, wrLog
 //@   sweep[C08,C18] nil index slice div typeassert panic makeslice nilmap
-//@   ensures[C18] err == nil ==> h.Header.HobType == 4 && h.Header.HobLength == 24 + len(h.Data) && result0 == h.Header.HobLength
-//@   ensures[C18] err == nil ==> wrLen[ref(w)] == old(wrLen)[ref(w)] + 24 + len(h.Data) && hobHdrAt(wrLog[ref(w)], old(wrLen)[ref(w)], 4, 24 + len(h.Data))
-//@   ensures[C18] err == nil ==> lg32(wrLog[ref(w)], old(wrLen)[ref(w)] + 8) == h.GUID.Data1 && lg16(wrLog[ref(w)], old(wrLen)[ref(w)] + 12) == h.GUID.Data2 && lg16(wrLog[ref(w)], old(wrLen)[ref(w)] + 14) == h.GUID.Data3
-//@   ensures[C18] err == nil ==> forall(i, 0 <= i && i < 8 ==> wrLog[ref(w)][old(wrLen)[ref(w)] + 16 + i] == h.GUID.Data4[i])
-//@   ensures[C18] err == nil ==> forall(k, 0 <= k && k < len(h.Data) ==> wrLog[ref(w)][old(wrLen)[ref(w)] + 24 + k] == bytesAt(h.Data, k))
+//@   ensures[C18,C05] err == nil ==> h.Header.HobType == 4 && h.Header.HobLength == 24 + len(h.Data) && result0 == h.Header.HobLength
+//@   ensures[C18,C05] err == nil ==> wrLen[ref(w)] == old(wrLen)[ref(w)] + 24 + len(h.Data) && hobHdrAt(wrLog[ref(w)], old(wrLen)[ref(w)], 4, 24 + len(h.Data))
+//@   ensures[C18,C05] err == nil ==> lg32(wrLog[ref(w)], old(wrLen)[ref(w)] + 8) == h.GUID.Data1 && lg16(wrLog[ref(w)], old(wrLen)[ref(w)] + 12) == h.GUID.Data2 && lg16(wrLog[ref(w)], old(wrLen)[ref(w)] + 14) == h.GUID.Data3
+//@   ensures[C18,C05] err == nil ==> forall(i, 0 <= i && i < 8 ==> wrLog[ref(w)][old(wrLen)[ref(w)] + 16 + i] == h.GUID.Data4[i])
+//@   ensures[C18,C05] err == nil ==> forall(k, 0 <= k && k < len(h.Data) ==> wrLog[ref(w)][old(wrLen)[ref(w)] + 24 + k] == bytesAt(h.Data, k))
 
 // CreateEFIHOBGUID pads the data with zeros to a multiple of 8 and builds a header whose length field is the real
 // length of the HOB (so it must fit 16 bits).
